@@ -112,7 +112,7 @@ def main():
     g = mod.gen(3)
     c = mod.coro(None)
     ag = mod.agen(2)
-    objs = [("longcall", mod.longcall), ("function", mod.plain), ("closure", mod.closure(1)), ("method", k.method), ("staticmethod", mod.Klass.smeth),
+    objs = [("longcall", mod.longcall), ("deadcode", mod.early_exit), ("function", mod.plain), ("closure", mod.closure(1)), ("method", k.method), ("staticmethod", mod.Klass.smeth),
             ("class", mod.Klass), ("generator", g), ("coroutine", c), ("asyncgen", ag), ("lambda", mod.lam),
             ("code", mod.plain.__code__), ("source", mod.SOURCE), ("expr", mod.EXPR), ("int", 42), ("module", mod)]
     kw = {"show_caches": True} if (3, 11) <= V < (3, 13) else {}
